@@ -187,7 +187,7 @@ def check_c11(run):
 # The Fmm.tla campaigns (C01, C02, C06, C07, C08, C09, C10-inner, C12, C13, C16, C17, C18)
 # =====================================================================================================
 HIST = {"full": 0, "stages3": 1, "single6": 2, "nearfirst": 3, "farnear": 4, "p2ponly": 5, "uponly": 6, "m2lafterup": 7,
-        "rebuild": 8, "move1": 9, "move2": 10, "ptop": 11, "build": 99}
+        "rebuild": 8, "move1": 9, "move2": 10, "ptop": 11, "ptopb": 12, "build": 99}
 FMM_INVS = ["NoAssertFail", "TreeOKWhenBuilt", "GeometricConsistency", "BatchWithinCapacity", "NothingAboveStopLevel",
             "MultipoleDef", "LocalDef", "RhsDef", "Completes", "ExactlyOnce", "ImagesOnceInner", "CountersEqualElementary",
             "ElementarySetIndependentOfGrouping", "RebuildAddsOneInteraction", "RebuildResets", "ImagesExactlyOnce", "Emit"]
@@ -331,7 +331,7 @@ def scenario_key(r, line):
     if r["mode"] == "tsm":
         k += "-T[%s]" % ",".join(map(str, r["tparts"]))
     k += "-bs%d-og%d-st%d-hi%d" % (r["bs"], int(r["ogpp"]), r["stop"], HIST[r["hist"]])
-    if r["hist"] == "ptop":
+    if r["hist"] in ("ptop", "ptopb"):
         k += "-ab%d" % r["above"]
     return k + "-v%s" % variant
 
@@ -764,16 +764,19 @@ C03_KINDS = ["SameAsSequential", "Covered", "Crash", "Sanitizer", "WorkerKernelB
 
 def omp_configs(tier):
     if tier == "quick":
-        return [("omp-1d-h5", fmm_constants(1, 5, POOL_1D_H5[:8], bss=(1, 2, 3, 20), hists=("full", "stages3"))),
+        return [("omp-1d-h5", fmm_constants(1, 5, POOL_1D_H5[:7], bss=(1, 2, 3, 20), hists=("full", "stages3", "farnear", "nearfirst"))),
                 ("omp-2d-h4", fmm_constants(2, 4, POOL_2D_H4[:6], bss=(1, 2, 20))),
                 ("omp-3d-h4", fmm_constants(3, 4, POOL_3D_H4[:5], bss=(1, 2, 20))),
+                ("omp-1d-h5-multi", fmm_constants(1, 5, POOL_1D_H5[:5], maxper=2, bss=(1, 2, 20))),
                 ("omp-tsm-1d-h5", fmm_constants(1, 5, POOL_1D_H5[:5], mode="tsm", bss=(1, 2, 20))),
                 ("omp-tsm-2d-h4", fmm_constants(2, 4, POOL_2D_H4[:4], mode="tsm", bss=(1, 2)))]
-    return [("omp-1d-h5", fmm_constants(1, 5, POOL_1D_H5, bss=(1, 2, 3, 5, 20), hists=("full", "stages3", "single6"))),
+    return [("omp-1d-h5", fmm_constants(1, 5, POOL_1D_H5, bss=(1, 2, 3, 5, 20), hists=("full", "stages3", "single6", "farnear", "nearfirst", "uponly", "m2lafterup"))),
             ("omp-1d-h6", fmm_constants(1, 6, POOL_1D_H6, bss=(1, 2, 3, 20))),
             ("omp-2d-h4", fmm_constants(2, 4, POOL_2D_H4[:8], bss=(1, 2, 3, 20), stops=(0, 2))),
             ("omp-3d-h4", fmm_constants(3, 4, POOL_3D_H4[:7], bss=(1, 2, 3, 20))),
             ("omp-4d-h3", fmm_constants(4, 3, POOL_4D_H3[:5], bss=(1, 2, 20))),
+            ("omp-1d-h5-multi", fmm_constants(1, 5, POOL_1D_H5[:6], maxper=3, maxparts=8, bss=(1, 2, 20))),
+            ("omp-2d-h4-multi", fmm_constants(2, 4, POOL_2D_H4[:4], maxper=2, bss=(1, 2, 20))),
             ("omp-tsm-1d-h5", fmm_constants(1, 5, POOL_1D_H5[:6], mode="tsm", bss=(1, 2, 3, 20))),
             ("omp-tsm-2d-h4", fmm_constants(2, 4, POOL_2D_H4[:5], mode="tsm", bss=(1, 2, 20))),
             ("omp-tsm-3d-h3", fmm_constants(3, 3, POOL_3D_H3[:4], mode="tsm", bss=(1, 2)))]
@@ -856,7 +859,7 @@ def check_c09(run):
 def check_c10(run):
     q = run.tier == "quick"
     ab1 = (-1, 0, 1, 2, 3) if q else (-1, 0, 1, 2, 3, 4, 5)
-    cs = [("per-1d-h3", fmm_constants(1, 3, range(4), periodic=True, maxparts=3, stops=(1,), bss=(1, 2, 20), hists=("ptop",), aboves=ab1)),
+    cs = [("per-1d-h3", fmm_constants(1, 3, range(4), periodic=True, maxparts=3, stops=(1,), bss=(1, 2, 20), hists=("ptop", "ptopb"), aboves=ab1)),
           ("per-1d-h4", fmm_constants(1, 4, [0, 1, 4, 7], periodic=True, maxparts=3, stops=(1,), bss=(1, 2, 20), hists=("ptop",), aboves=ab1[:4])),
           ("per-1d-h2", fmm_constants(1, 2, range(2), periodic=True, maxper=2, maxparts=3, stops=(1,), bss=(1, 2), hists=("ptop",), aboves=ab1)),
           ("per-2d-h3", fmm_constants(2, 3, [0, 6, 9, 15], periodic=True, maxparts=2 if q else 3, stops=(1,), bss=(1, 2, 20), hists=("ptop",), aboves=(-1, 0, 1))),
@@ -867,6 +870,13 @@ def check_c10(run):
         cs.append(("per-3d-h2", fmm_constants(3, 2, [0, 3, 5, 7], periodic=True, maxparts=2, stops=(1,), bss=(1, 20), hists=("ptop",), aboves=(-1, 0))))
         cs.append(("per-tsm-2d-h2", fmm_constants(2, 2, range(4), periodic=True, mode="tsm", maxparts=2, stops=(1,), bss=(1, 2), hists=("ptop",), aboves=(-1, 0, 1))))
     run_fmm_configs(run, "C10", cs, cap=1024)
+    # the in-box part through the OpenMP executors under the mock-runtime schedules (the top tree itself is sequential)
+    for name, consts in [("omp-per-1d-h3", fmm_constants(1, 3, range(4), periodic=True, maxparts=3, stops=(1,), bss=(1, 2, 20), hists=("ptop", "ptopb"), aboves=(-1, 0, 2))),
+                         ("omp-per-2d-h2", fmm_constants(2, 2, range(4), periodic=True, maxparts=2, stops=(1,), bss=(1, 2), hists=("ptop",), aboves=(-1, 1))),
+                         ("omp-per-tsm-1d-h3", fmm_constants(1, 3, range(4), periodic=True, mode="tsm", maxparts=2, stops=(1,), bss=(1, 2), hists=("ptop",), aboves=(0, 1)))]:
+        pairs, mism, _ = omp_campaign(run, "C10-" + name, consts, run.tier, graphs=0, cap=1024)
+        report_mismatches(run, "C10", "C10-" + name, pairs, [(k, re.sub(r"-(immediate|deferred|tlc)-.*$", "", key), "%s [%s]" % (t, key)) for k, key, t in mism],
+                          ["SameAsSequential", "Covered", "Crash", "Arg", "KernelPerWorker"])
     run.coverage["rule"] = ("one case = one (occupancy, block size, grouping mode, number of extra levels) of the documented periodic sequence (upward pass with working level 1, "
                             "periodic top tree, transfer, downward pass) explored by TLC with image-carrying contributions: ImagesExactlyOnce requires exactly one contribution from "
                             "every particle image of the repetition interval derived from the top tree's transfer windows (none from itself in the central box), GeometricConsistency "
